@@ -28,6 +28,7 @@ RULES = {
     "C17-B1": "header: formatted value == stored remaining == length parameter, no narrowing; '#', digit count, header_len + 2; header buffer in bounds",
     "C17-B2": "data call: remaining < len => -310, 0, no write; else remaining -= len before the write; counted only when remaining == 0",
     "C17-B3": "byte order: enum aliases, native probe, binary producer decision table, SCPI_Swap16/32/64 are byte reversals",
+    "C17-B6": "every function that announces a block emits its payload only through SCPI_ResultArbitraryBlockData; the one-shot call is header(len) then data(data, len) on every path",
     "C17-B5": "the remaining-length counter the refusal test reads is re-established (0) for every unit before its handler runs",
     "C17-B4": "each SCPI_ResultArray<T> passes sizeof(*array) of its own element type and the scalar writer of the same type",
 }
@@ -85,6 +86,24 @@ def rule_b1(ck, prog):
         for n, t in C.stores(f):
             if n.get("op") == "=" and n.child(1).strip_all_casts().k == "CallExpr" and n.child(1).strip_all_casts().get("callee") in ("strlen", "__builtin_strlen"):
                 hl = t.get("path")
+        by_return = False
+        if hl is None:
+            # the formatter's own return value (number of characters produced) is an equally good measure
+            for n, t in C.stores(f):
+                if n.get("op") == "=" and n.child(1).strip_all_casts() is fmt[0]:
+                    hl = t.get("path")
+                    by_return = True
+            for d in f.nodes.values():
+                if d.k == "DeclStmt":
+                    for dd in d.get("decls", []):
+                        if "init" in dd and f.nodes[dd["init"]].strip_all_casts() is fmt[0]:
+                            hl = dd["name"]
+                            by_return = True
+        # room for the 9 digits of every length below 10^9 (plus the NUL when the digits are counted with strlen)
+        capn = C.const_of(C.call_args(fmt[0])[2])
+        need = 9 if by_return else 10
+        if capn is None or capn < need:
+            probs.append("the decimal length is formatted into %s characters; lengths up to 999999999 need %d" % (capn, need))
         okd = False
         if d1 and hl:
             e = d1[0].child(1).strip_all_casts()
@@ -436,6 +455,52 @@ def rule_b5(ck, prog):
                     "accepted (not refused with -310) when an earlier handler left a block unfinished")
 
 
+def rule_b6(ck, prog, S):
+    users = [f for f in prog.functions.values() if f.name != "SCPI_ResultArbitraryBlockHeader"
+             and list(f.calls("SCPI_ResultArbitraryBlockHeader"))]
+    if len(users) < 2:
+        ck.anchor_lost("C17-B6", "only %d callers of SCPI_ResultArbitraryBlockHeader" % len(users))
+        return
+    for f in sorted(users, key=lambda f: f.name):
+        ck.analysed(f)
+        st = K.site(f, "payload-through-data-call", 0)
+        pg = S.pg(f)
+        hdrs = list(f.calls("SCPI_ResultArbitraryBlockHeader"))
+        raw = [c for c in f.calls("writeData")]
+        reach = pg.reachable([pg.after(h) for h in hdrs])
+        bypass = [c for c in raw if pg.before(c) in reach]
+        cnt = [n for n, t in C.stores(f) if (t.get("path") or "").endswith("->output_count") and pg.before(n) in reach]
+        if bypass or cnt:
+            ck.violated("C17-B6", st, K.loc(f, (bypass or cnt)[0]),
+                        "%s announces a block and then %s itself instead of going through SCPI_ResultArbitraryBlockData: the "
+                        "announced length is never consumed, so a later data call is not refused and the completion "
+                        "accounting is wrong" % (f.name, "writes payload with writeData" if bypass else "counts the item"))
+        else:
+            ck.holds("C17-B6", st, K.loc(f, hdrs[0]), "no direct payload write / item count after the header")
+    f = prog.fn("SCPI_ResultArbitraryBlock")
+    if f is None:
+        ck.anchor_lost("C17-B6", "SCPI_ResultArbitraryBlock")
+        return
+    st = K.site(f, "header-then-data", 0)
+    bad = None
+    sums = P.summarize(f)
+    for ps in sums:
+        names = [c.get("callee") for c in ps.calls]
+        h = [c for c in ps.calls if c.get("callee") == "SCPI_ResultArbitraryBlockHeader"]
+        d = [c for c in ps.calls if c.get("callee") == "SCPI_ResultArbitraryBlockData"]
+        if len(h) != 1 or len(d) != 1 or names.index("SCPI_ResultArbitraryBlockHeader") > names.index("SCPI_ResultArbitraryBlockData"):
+            bad = "a path performs %d header and %d data calls" % (len(h), len(d))
+            break
+        la, da = C.call_args(h[0])[1].strip_all_casts().get("path"), C.call_args(d[0])
+        if la != f.params[2]["name"] or da[2].strip_all_casts().get("path") != la or da[1].strip_all_casts().get("path") != f.params[1]["name"]:
+            bad = "header and data call do not carry the same (data, len)"
+            break
+    if bad or not sums:
+        ck.violated("C17-B6", st, K.loc(f), "SCPI_ResultArbitraryBlock: %s" % (bad or "no path"))
+    else:
+        ck.holds("C17-B6", st, K.loc(f), "header(len); data(data, len) on all %d paths" % len(sums))
+
+
 def run(ck, fb, tier):
     for cfg in fb.configs:
         ck.config = cfg
@@ -446,6 +511,7 @@ def run(ck, fb, tier):
         rule_b2(ck, prog)
         rule_b3(ck, prog, S)
         rule_b4(ck, prog)
+        rule_b6(ck, prog, S)
     ck.assume("block lengths below 10^9 (the property's range): the 10-byte decimal field of the header then always holds a NUL")
     if tier == "thorough":
         K.cross_config(ck, fb, "C17-XC", ['SCPI_ResultArbitraryBlockData', 'produceResultArrayBinary', 'SCPI_ResultArbitraryBlockHeader'])
